@@ -599,8 +599,26 @@ def rule_r6(rep, program: Program, prop=PROP, rule="R6"):
             marker = norm(st.value)
         if isinstance(st, ast.Delete) or (isinstance(st, ast.Expr) and isinstance(st.value, ast.Call) and norm(st.value.func) == "self._cache.pop"):
             marker = marker or "<deleted>"
+    from ..absexec import Unsupported
+    from . import cachewrap
+
     for dname in ("cache_in_state", "cache_in_state_with_aux"):
         d = decorator_func(program, dname)
+        # abstract runs of the decorator over every combination of entry states, result conventions and callers
+        # decide what is returned and registered; the shape clauses below are the fallback outside the subset
+        try:
+            records = cachewrap.run_scenarios(program, dname)
+        except Unsupported as exc:
+            r.inst({"decorator": dname, "abstract runs": f"outside the executor's subset ({exc}); falling back to the shape clauses"})
+            records = None
+        if records is not None:
+            verdicts = cachewrap.judge(records, dname)
+            for form in sorted({rec["form"] for rec in records}):
+                r.inst({"decorator": dname, "argument spelling": form, "abstract runs": sum(1 for rec in records if rec["form"] == form), "reports": [f"{side}:{key}" for side, key, _ in verdicts]})
+            for side, key, msg in verdicts:
+                if side == "transparent":
+                    r.violate(PROP, f"{dname}.wrapper:{key}", msg, node=d.node, file=d.file)
+            continue
         ws = [n for n in ast.walk(d.node) if isinstance(n, ast.FunctionDef) and n.name == "wrapper"]
         if len(ws) != 1:
             raise AnalysisError(f"{dname}: wrapper not found")
